@@ -304,6 +304,8 @@ package main
 //@   requires [C13] s != nil && msg != nil && msg.Del != nil && globals.hub != nil
 //@   modifies *
 //@   ensures [C13] answered: outTotal > old(outTotal) || sentTotal() > old(sentTotal())
+// (what Hub.run assumes of the deletion requests it receives, checked here at the one sender that carries a message)
+//@   ensures [C13] unreg_request_complete: called("replyDelUser") == old(called("replyDelUser")) && sent(old(globals.hub.unreg)) > old(sent(globals.hub.unreg)) ==> last(old(globals.hub.unreg)) != nil && last(old(globals.hub.unreg)).pkt == msg && last(old(globals.hub.unreg)).sess == s && msg.Del != nil
 //@   nopanic
 //@   safe
 //@ func (s *Session) acc(msg *ClientComMessage)
